@@ -1,5 +1,6 @@
 import SJ.Proofs.Tables
 import SJ.Proofs.StreamDocs
+import SJ.Proofs.NDLines
 import SJ.Proofs.ParseIff
 import SJ.Proofs.BlockScan
 import SJ.Generated.Consts
@@ -60,5 +61,17 @@ theorem C08_ndText_lines (s : List UInt8) (vs : List Spec.JVal) :
     (Spec.ndText s = .accept (.arr vs) ↔ lines s ≠ [] ∧ (lines s).map Spec.containerText = vs.map Spec.Verdict.accept) ∧
     (Spec.ndText s = .reject ↔ lines s = [] ∨ ∃ l ∈ lines s, Spec.containerText l = .reject) :=
   ⟨ndText_accept_iff s vs, ndText_reject_iff s⟩
+
+
+open SJ.ParseDefs SJ.TrimEdge SJ.StreamDocs SJ.NDLines in
+/-- **ParseND succeeds exactly when every non-blank line would be accepted by Parse** (and there is one). `lines` are
+    the non-blank lines of the trimmed input, split at LF; `LineOK` asks of each line what `C01_parse_iff` asks of an
+    input: JSON-only white space at its edges (a trailing CR is JSON white space), below 2^50 bytes, not `outside`. -/
+theorem C08_parseND_iff_lines (cfg : Cfg) (input : Bytes) (he : EdgeOK input) (hsz : SizeOK (trimSpace input))
+    (hin : Spec.ndText (jsonTrim input).toList ≠ .outside)
+    (hl : ∀ l ∈ lines (jsonTrim input).toList, LineOK l) :
+    (∃ pj, parseND cfg input = .ok pj) ↔
+      (lines (jsonTrim input).toList ≠ [] ∧ ∀ l ∈ lines (jsonTrim input).toList, ∃ pj, parse cfg l.toArray = .ok pj) :=
+  parseND_iff_lines cfg input he hsz hin hl
 
 end SJ.Properties.C08
